@@ -170,6 +170,9 @@ func runC06(p *core.Prog, r *core.Report) {
 				role := t.chanRole(a.State.Chan)
 				return role == "blocking" || role == "shared"
 			})
+			if len(recvArms) == 0 || len(sendArms) == 0 {
+				r.Unknown("C06-R3", "queue goroutine: hand-over selects", p.FuncPos(t.Queue), "the receive from the buffered queue or the hand-over sends are not select arms of the goroutine body itself (moved into helpers?): the per-iteration rule cannot follow them")
+			}
 			rc := sx.Count(t.Queue, hdr, sx.Weights{Edge: edgeWeight(recvArms)}, back)
 			sc := sx.Count(t.Queue, hdr, sx.Weights{Edge: edgeWeight(sendArms)}, back)
 			okIter := len(rc.BackEdges) > 0
@@ -235,6 +238,9 @@ func runC06(p *core.Prog, r *core.Report) {
 				role := t.chanRole(a.State.Chan)
 				return role == "blocking" || role == "shared" || role == "buffered"
 			})
+			if len(recvArms) == 0 {
+				r.Unknown("C06-R4", "worker goroutine: task receives", p.FuncPos(t.Worker), "the receives of tasks are not select arms of the worker body itself (moved into helpers?): the per-iteration rule cannot follow them")
+			}
 			rc := sx.Count(t.Worker, hdr, sx.Weights{Edge: edgeWeight(recvArms)}, back)
 			for i, s := range sites {
 				rg, ok := rc.Before(s.(ssa.Instruction))
